@@ -264,7 +264,7 @@ def judge(model, call, r, bump):
                 if tr is not None:
                     bad("deadline-appears", {"page": i, "time_remaining": tr})
                     break
-            elif tr is None or not (call["timeout"] - 5 <= tr <= call["timeout"] + 0.5):
+            elif tr is None or not (call["timeout"] - 5 - rq.get("stall", 0.0) <= tr <= call["timeout"] + 0.5):
                 bad("deadline-not-forwarded", {"page": i, "time_remaining": tr, "timeout": call["timeout"]})
                 break
     # items (map entries: order within one page is not defined on the wire -> compare page-wise sorted)
@@ -339,7 +339,8 @@ def in_runner(script):
     def collect_grpc(call, mark):
         out = []
         for e in srv.since(mark):
-            out.append({"request": e["requests"][0] if e["requests"] else "", "metadata": e["metadata"], "time_remaining": e["time_remaining"]})
+            out.append({"request": e["requests"][0] if e["requests"] else "", "metadata": e["metadata"], "time_remaining": e["time_remaining"],
+                        "stall": max(0.0, e["t"] - call.get("_t0", e["t"]))})
         return out
 
     def collect_http(call, mark):
@@ -366,6 +367,7 @@ def in_runner(script):
         else:
             http.script([{"status": 200, "body": pj} for pj in call["pages_json"]])
             mark = http.mark()
+        call["_t0"] = __import__("time").monotonic()
         try:
             ret = getattr(c, call["method"])(request=req, **kwargs_of(call))
             o["is_pager"] = hasattr(ret, "pages") and not hasattr(type(ret), "serialize")
@@ -402,6 +404,7 @@ def in_runner(script):
             srv.script("/%s/%s" % (call["full_service"], call["rpc"]), grpc_script(call))
             mark = srv.mark()
             o = {}
+            call["_t0"] = __import__("time").monotonic()
             try:
                 ret = await getattr(ac[svc], call["method"])(request=req, **kwargs_of(call))
                 o["is_pager"] = hasattr(ret, "pages") and not hasattr(type(ret), "serialize")
